@@ -104,7 +104,67 @@ def vectors(tier, depth):
     return [a for a in LVL_OPTS] + [b for b in UNIT_OPTS[1:]] + MIXED
 
 
+EXEC_MODES = {'seq': ([], 'all'), 'j2': (['-j2'], 'all'), 'f': (['-f'], 'nonunit'), 'layer': (['--layer', 'L2$'], 'L2'),
+              'all': (['--all'], 'all'), 'rep': (['--repeat', '2'], 'all'), 'u': (['-u'], 'unit')}
+
+
+def run_exec(kind, shadow, mode):
+    """A test must RUN inside the very layer object that was declared nearest
+    to it (set up through that object's hooks) - also when its module binds
+    the layer's name to something else (a layer nested in a class, made by a
+    factory, re-bound later): 'shadow'."""
+    from vt import monitors
+    layers = [{'n': 'L1', 'b': [], 'k': kind, 'h': list(worlds.HOOKS_SD) + ['testSetUp', 'testTearDown'], 'shadow': shadow},
+              {'n': 'L2', 'b': ['L1'], 'k': kind, 'h': list(worlds.HOOKS_SD), 'shadow': shadow},
+              {'n': 'L3', 'b': [], 'k': kind, 'h': list(worlds.HOOKS_SD), 'shadow': shadow}]
+    tests = [{'n': 'a', 'l': 'L1', 's': 'pass'}, {'n': 'b', 's': 'pass', 'li': {'l': 'L2', 'lv': None}},
+             {'n': 'c', 's': 'pass'}, {'n': 'd', 's': 'pass'}, {'n': 'e', 'l': 'L3', 's': 'pass'}, {'n': 'u', 's': 'pass'}]
+    tree = [{'c': [{'t': 'a'}, {'t': 'b'}, {'l': 'L2', 'c': [{'t': 'c'}, {'l': 'L1', 'c': [{'t': 'd'}]}]}, {'t': 'e'}, {'t': 'u'}]}]
+    want_layer = {'a': 'L1', 'b': 'L2', 'c': 'L2', 'd': 'L1', 'e': 'L3', 'u': None}
+    spec = {'layers': layers, 'tests': tests, 'tree': tree}
+    argv, sel = EXEC_MODES[mode]
+    res = runrt.run_world(spec, list(argv))
+    sig = {'argv': 'exec ' + ' '.join(argv), 'shadow': shadow, 'kind': kind}
+    viol = []
+
+    def V(c, d):
+        viol.append({'clause': c, 'sig': sig, 'detail': '%s\nargv=%s spec=%s' % (d, argv, spec)})
+    if res.escaped:
+        V('run_aborted', res.escaped_tb)
+        return viol
+    # the layers that are up (by their own hooks) while each test body runs
+    up = {}
+    seen = {}
+    for ev in res.trace:
+        if ev[1] == 'L' and ev[3] in ('setUp', 'tearDown'):
+            if ev[4] == '!' :
+                V('decoy_or_failing_hook', ev)
+            elif ev[4] == '<':
+                st = up.setdefault(ev[0], [])
+                if ev[3] == 'setUp':
+                    st.append(ev[2])
+                elif ev[2] in st:
+                    st.remove(ev[2])
+        elif ev[1] == 't' and ev[3] == 'body':
+            seen.setdefault(ev[2], []).append(sorted(up.get(ev[0], [])))
+    closure = {'L1': ['L1'], 'L2': ['L1', 'L2'], 'L3': ['L3'], None: []}
+    for tid, lay in want_layer.items():
+        selected = (sel == 'all' or (sel == 'nonunit' and lay is not None) or (sel == 'unit' and lay is None) or sel == lay)
+        times = (2 if mode == 'rep' else 1) if selected else 0
+        got = seen.get(tid, [])
+        if len(got) != times:
+            V('executed_count', 'test %s (declared layer %s) ran %d times, expected %d' % (tid, lay, len(got), times))
+        for g in got:
+            if g != closure[lay]:
+                V('ran_in_wrong_layer', 'test %s is declared nearest for layer %s but ran with %s set up' % (tid, lay, g))
+    return viol
+
+
 def cases(tier, seed):
+    for kind in ('c', 'i'):
+        for shadow in (False, True):
+            for mode in EXEC_MODES:
+                yield ['exec', [kind, shadow], mode]
     # modules discovered on disk, one of them without test_suite() and with
     # ordinary globals called `layer` / `level` (shared with C03)
     for fi in (0, 1):
@@ -277,6 +337,9 @@ def run_case(case):
         for v in viol:
             v['sig'] = {'argv': 'disk', 'ux': False}
         return {'evals': 2, 'nontrivial': 2, 'violations': viol, 'outcome': 'disk'}
+    if case[0] == 'exec':
+        viol = run_exec(case[1][0], case[1][1], case[2])
+        return {'evals': 1, 'nontrivial': 1, 'violations': viol, 'outcome': 'exec'}
     depth, b, argv = case
     spec, info = build_block(depth, b)
     res = runrt.run_world(spec, ['--list-tests'] + list(argv), probe=False)
